@@ -142,3 +142,33 @@ example : acceptFields .S1 [['A'], ['A', 'C', 'G', 'T'], ['x', 'x', ':', 'Z', ':
     acceptFields .S1 [['A']] = false := by decide
 
 end Gfa.C04
+
+namespace Gfa.C04
+open Gfa.LineFmt Field Line
+
+/-- where an identifier is required the placeholder is not one -/
+theorem idGfa2_not_placeholder (s : List Char) (h : Field.accept .idGfa2 s = true) : s ≠ ['*'] := by
+  simp only [Field.accept, Field.sideOk, Bool.and_eq_true, bne_iff_ne, ne_eq] at h
+  exact h.2
+
+/-- an accepted GFA2 segment line, and an accepted fragment line, name a segment: never the placeholder
+    (`Rec.name` of the graph model reads `*` as "no name", and `ensureSeg` refuses a reference to it) -/
+theorem accepted_S2_named (fs : List (List Char)) (h : acceptFields .S2 fs = true) :
+    ∃ n rest, fs = n :: rest ∧ n ≠ ['*'] := by
+  obtain ⟨hn, hall, _⟩ := (acceptFields_iff .S2 fs).mp h
+  match fs, hn, hall with
+  | n :: rest, _, hall =>
+    exact ⟨n, rest, rfl, idGfa2_not_placeholder n (by simpa [posTypes] using hall 0 (by simp [posTypes]))⟩
+
+theorem accepted_F_named (fs : List (List Char)) (h : acceptFields .F fs = true) :
+    ∃ n rest, fs = n :: rest ∧ n ≠ ['*'] := by
+  obtain ⟨hn, hall, _⟩ := (acceptFields_iff .F fs).mp h
+  match fs, hn, hall with
+  | n :: rest, _, hall =>
+    exact ⟨n, rest, rfl, idGfa2_not_placeholder n (by simpa [posTypes] using hall 0 (by simp [posTypes]))⟩
+
+/-- the optional identifiers do take it -/
+example : Field.accept .optIdGfa2 ['*'] = true ∧ Field.accept .idGfa2 ['*'] = false ∧ Field.accept .idGfa2 ['*', '*'] = true := by
+  decide
+
+end Gfa.C04
